@@ -114,7 +114,15 @@ func (g *FuncGen) execCall(x *ssa.Call, st *State) error {
 			g.tuples[x] = res
 		}
 	}
-	if c == nil && callee != nil && !g.eng.isKnownPure(com) && g.canInline(callee) {
+	hasAssumedFrame := false
+	if c == nil && callee != nil && g.rootC != nil {
+		for i := range g.rootC.AssumeFrames {
+			if calleeMatches(callee.String(), g.rootC.AssumeFrames[i].Callee) {
+				hasAssumedFrame = true
+			}
+		}
+	}
+	if c == nil && callee != nil && !hasAssumedFrame && !g.eng.isKnownPure(com) && g.canInline(callee) {
 		if rs, ok := g.inlineCall(callee, args, com.Args, st); ok {
 			g.inlined[shortKey(callee.String())] = true
 			if nres == 1 {
@@ -123,6 +131,13 @@ func (g *FuncGen) execCall(x *ssa.Call, st *State) error {
 				g.tuples[x] = rs
 			}
 			return nil
+		}
+		// the loop analysis counted on this helper being executed in place (its writes
+		// entered the loop's modified set): falling back to a havoc would not be covered
+		for _, li := range g.loopList {
+			if li.body[x.Block()] {
+				g.bail("helper %s could not be executed in place inside a loop", callee.String())
+			}
 		}
 	}
 	if c == nil {
@@ -137,7 +152,7 @@ func (g *FuncGen) execCall(x *ssa.Call, st *State) error {
 		if !pure && g.rootC != nil {
 			for i := range g.rootC.AssumeFrames {
 				a := &g.rootC.AssumeFrames[i]
-				if (a.Callee == "$dynamic" && callee == nil && !com.IsInvoke()) || (callee != nil && strings.HasSuffix(shortKey(callee.String()), a.Callee)) {
+				if (a.Callee == "$dynamic" && callee == nil && !com.IsInvoke()) || (callee != nil && calleeMatches(callee.String(), a.Callee)) {
 					af = a
 				}
 			}
@@ -215,6 +230,23 @@ func (g *FuncGen) execCall(x *ssa.Call, st *State) error {
 	}
 	g.usedContracts[c.Key] = true
 	cpkg := g.eng.pkgOfContract(c)
+	// `function`: the result is a function of the arguments only, the same function that
+	// contract expressions mean by writing the call
+	if c.Function && nres == 1 && len(c.Modifies) == 0 && callee != nil && len(callee.Params) == len(args) {
+		uf := q("pure:" + shortKey(c.Key))
+		if !g.declared[uf] {
+			g.declared[uf] = true
+			var ss []string
+			for _, p := range callee.Params {
+				ss = append(ss, g.w.SortOf(p.Type()))
+			}
+			g.decls = append(g.decls, fmt.Sprintf("(declare-fun %s (%s) %s)", uf, strings.Join(ss, " "), g.w.SortOf(sig.Results().At(0).Type())))
+		}
+		res[0] = "(" + uf + " " + strings.Join(args, " ") + ")"
+		if len(args) == 0 {
+			res[0] = uf
+		}
+	}
 	// bind names
 	var cnames []string
 	if c.Recv != "" {
@@ -663,6 +695,15 @@ func (g *FuncGen) elemFootprintGoal(arr, emName string) string {
 		return ""
 	}
 	return fmt.Sprintf("(or (>= %s %s) %s)", arr, g.alloc0, strings.Join(parts, " "))
+}
+
+// calleeMatches: does the (possibly generic) function name end in pat?
+func calleeMatches(name, pat string) bool {
+	n := shortKey(name)
+	if k := strings.Index(n, "["); k >= 0 {
+		n = n[:k]
+	}
+	return strings.HasSuffix(n, pat)
 }
 
 func shortKey(k string) string {
